@@ -11,7 +11,8 @@ from . import common
 
 
 # statement files shared by several properties (generated-code bridges used by all of them)
-SHARED_PROPS = {p: ['Stages'] for p in ('C01', 'C02', 'C03', 'C04', 'C16')}
+SHARED_PROPS = {p: ['Stages', 'Frames'] for p in ('C01', 'C02', 'C03', 'C04', 'C16')}
+SHARED_PROPS.update({p: ['Frames'] for p in ('C05', 'C07')})
 
 
 def proof_step(res, pid, allow_axioms=()):
